@@ -127,15 +127,26 @@ Proof. intros. cbn [issued_for snd]. rewrite !N.eqb_refl. reflexivity. Qed.
 Lemma add_sub : forall o n m, In m (names (o_holders (add_holder o n))) -> m = n \/ In m (names (o_holders o)).
 Proof. intros o n m [H|H]; [left; symmetry; exact H | right; exact H]. Qed.
 
+Lemma live_alias_issued : forall l hl i c cl a, live_alias l hl i c cl = Some a -> issued_for l hl a i c = true.
+Proof.
+  induction l as [|e l]; intros hl i c cl a H; [discriminate|]. destruct hl as [|x hl]; [discriminate|].
+  cbn [live_alias issued_for] in *. destruct e as [c' t k|]; [|rewrite (IHl _ _ _ _ _ H); reflexivity].
+  destruct k; try (rewrite (IHl _ _ _ _ _ H); apply orb_true_r).
+  - destruct ((c' =? c) && (i0 =? i) && negb (memN i cl)) eqn:E.
+    + inversion H; subst a. apply andb_true_iff in E. destruct E as [E _]. rewrite E, N.eqb_refl. reflexivity.
+    + rewrite (IHl _ _ _ _ _ H). apply orb_true_r.
+  - destruct ((c' =? c) && (i0 =? i) && negb (memN (snd x) cl)) eqn:E.
+    + inversion H; subst a. apply andb_true_iff in E. destruct E as [E _]. rewrite E, N.eqb_refl. reflexivity.
+    + rewrite (IHl _ _ _ _ _ H). apply orb_true_r.
+  - destruct ((c' =? c) && (i0 =? i)); rewrite (IHl _ _ _ _ _ H); apply orb_true_r.
+Qed.
+
 Lemma hinv_do_current : forall o o' d n t, Inv o d -> HInv o d ->
   (forall m, In m (names (o_holders o')) -> m = n \/ In m (names (o_holders o))) ->
-  HInv o' (match val_of (do_current d n t) n with
-           | SSpan i _ => set_hid (hpush (do_current d n t) (i, i)) n i
-           | _ => set_hid (do_current d n t) n 0
-           end).
+  HInv o' (mh_current d (do_current d n t) n).
 Proof.
-  intros o o' d n t I H Hsub. unfold do_current.
-  destruct ((cur_default d t =? 0) || per_handle (cur_default d t)).
+  intros o o' d n t I H Hsub. unfold mh_current, do_current.
+  destruct (cur_default d t =? 0).
   { rewrite val_of_set_same. eapply (hinv_set o o' d _ n SNone 0); [exact H | exact Hsub | left; split; reflexivity | reflexivity | reflexivity | intros; discriminate]. }
   destruct (stack_of (d_log d) (cur_default d t) t) as [|i rest] eqn:Es.
   { rewrite val_of_set_same. eapply (hinv_set o o' d _ n SNone 0); [exact H | exact Hsub | left; split; reflexivity | reflexivity | reflexivity | intros; discriminate]. }
@@ -144,12 +155,21 @@ Proof.
   { unfold val_of, note_made, set_val. simpl. rewrite N.eqb_refl. reflexivity. }
   rewrite Hv.
   pose proof (current_live o d c t i rest I Es) as Hlive. pose proof (inv_new1 _ _ I _ Hlive) as Hnew.
-  eapply (hinv_set o o' d _ n (SSpan i c) i); [exact H | exact Hsub | | | |].
-  - right. exists (ECall c t (CClone i)), (i, i). repeat split; try reflexivity.
-    unfold wire_entry_ok. cbn [fst subject]. apply new_issued; [apply wire_ok_len, (h_wire _ _ H) | lia].
-  - reflexivity.
-  - reflexivity.
-  - intros i' c' Heq. inversion Heq; subst i' c'. apply issued_head_clone.
+  assert (Hroot : issued_for (d_log d) (d_hlog d) i i c = true)
+    by (apply new_issued; [apply wire_ok_len, (h_wire _ _ H) | lia]).
+  destruct (per_handle c).
+  - cbv zeta. eapply (hinv_set o o' d _ n (SSpan i c) (d_next d)); [exact H | exact Hsub | | | |].
+    + right. exists (ECall c t (CClone i)), (current_alias d i c, d_next d). repeat split; try reflexivity.
+      unfold wire_entry_ok. cbn [fst subject]. unfold current_alias.
+      destruct (live_alias (d_log d) (d_hlog d) i c []) as [a|] eqn:Ea; [eapply live_alias_issued; exact Ea | exact Hroot].
+    + reflexivity.
+    + reflexivity.
+    + intros i' c' Heq. inversion Heq; subst i' c'. apply issued_head_clone.
+  - eapply (hinv_set o o' d _ n (SSpan i c) i); [exact H | exact Hsub | | | |].
+    + right. exists (ECall c t (CClone i)), (i, i). repeat split; try reflexivity. exact Hroot.
+    + reflexivity.
+    + reflexivity.
+    + intros i' c' Heq. inversion Heq; subst i' c'. apply issued_head_clone.
 Qed.
 
 Lemma hinv_micro : forall m o d o', Inv o d -> HInv o d -> mo m o = Some o' -> HInv o' (md m d).
